@@ -572,6 +572,7 @@ def run_schema(schema: dict, rng, exercise: int = 40) -> SchemaRun:
             ok, back = sr._call(f"{cls.__name__}.{from_n}", getattr(cls, from_n), wire)
             if ok and to_n == "to_dict":
                 check_identity(sr, d, inst, back)
+                check_deep_identity(sr, d, inst, back, f"{cls.__name__}.{from_n}")
                 check_factory_identity(sr, inst, back)
             if ok:
                 check_roundtrip(sr, d, inst, back, f"{cls.__name__}.{from_n}", wire)
@@ -616,6 +617,7 @@ def run_schema(schema: dict, rng, exercise: int = 40) -> SchemaRun:
             ok2, back = sr._call(f"{kind}.decode", dec.decode, wire)
             if ok2:
                 check_identity(sr, d, val, back)
+                check_deep_identity(sr, d, val, back, f"{kind}.decode")
                 check_factory_identity(sr, val, back)
                 check_roundtrip(sr, d, val, back, f"{kind}.decode", wire)
         for j in JUNK:
@@ -818,6 +820,83 @@ def check_identity(sr: SchemaRun, d: dict, inst, back):
                 sr.finding("wrong-class-bound", f"field {holder.__name__}.{fn}: annotation {c!r} (id {id(c):#x}) but decoded object is of {type(y)!r} (id {id(type(y)):#x})",
                            entry=f"{holder.__name__}.from_dict", field=fn, ann=c, got=type(y),
                            winner=_winner(d, holder, fn, type(y)))
+
+
+def _schema_class_ids(d: dict) -> dict:
+    return {id(c): c for c in d.get("CLASSES", []) if isinstance(c, type)}
+
+
+def check_deep_identity(sr: SchemaRun, d: dict, inst, back, entry: str):
+    """at EVERY position of the decoded value (through dataclass fields, lists, tuples, dict values, any depth): an object of a
+    schema class (CLASSES) in the encoded value comes back as an object of that very class.  Only for holders the schema demands an
+    exact round trip of (ROUNDTRIP): no lossy type (pass_through, strategies, unions decoding to another member) in between."""
+    import dataclasses
+    if not any(type(inst) is h for h in d.get("ROUNDTRIP", [])):
+        return
+    known = _schema_class_ids(d)
+    if not known:
+        return
+    seen = set()
+
+    def walk(a, b, path, depth):
+        if depth > 10 or len(seen) > 400:
+            return
+        ta = type(a)
+        if id(ta) in known and type(b) is not ta:
+            key = (path, id(ta), id(type(b)))
+            if key not in seen:
+                seen.add(key)
+                sr.finding("wrong-class-bound", f"{entry}: at {type(inst).__name__}{path} the value is of {ta!r} (id {id(ta):#x}) but the decoded "
+                           f"object is of {type(b)!r} (id {id(type(b)):#x})", entry=entry, field=path, ann=ta, got=type(b),
+                           winner=_deep_winner(d, type(inst), path, type(b)))
+            return
+        if dataclasses.is_dataclass(a) and not isinstance(a, type) and type(b) is ta:
+            for f in dataclasses.fields(a):
+                if hasattr(a, f.name) and hasattr(b, f.name):
+                    walk(getattr(a, f.name), getattr(b, f.name), f"{path}.{f.name}", depth + 1)
+        elif isinstance(a, (list, tuple)) and isinstance(b, (list, tuple)) and len(a) == len(b):
+            for i, (x, y) in enumerate(zip(a, b)):
+                walk(x, y, f"{path}[{i}]", depth + 1)
+        elif isinstance(a, dict) and isinstance(b, dict):
+            for k in a:
+                if k in b:
+                    walk(a[k], b[k], f"{path}[{k!r}]", depth + 1)
+    walk(inst, back, "", 0)
+
+
+def _deep_winner(d, holder, path, got) -> str:
+    top = path.lstrip(".").split(".")[0].split("[")[0]
+    return _winner(d, holder, top, got) if top else "unknown"
+
+
+def spec_key_cases(t, classes, depth: int = 0) -> list:
+    """every specialisation G[args] of a generic DATACLASS inside the annotation t: [name of G, Render.rty terms of the args (None
+    when outside the rendering grammar), the real hash_type_args(args), ids of the argument objects].  The model of the key is
+    md5(",".join(Render.render arg)) (coq/theories/C17SpecKey.v)."""
+    import dataclasses
+    import typing
+    from harness import c17_render
+    out = []
+    if depth > 6:
+        return out
+    origin = typing.get_origin(t)
+    args = typing.get_args(t)
+    if origin is typing.Annotated and args:
+        return spec_key_cases(args[0], classes, depth + 1)
+    if origin is not None and isinstance(origin, type) and dataclasses.is_dataclass(origin) and args:
+        try:
+            from mashumaro.core.meta.helpers import hash_type_args, type_name
+            real = hash_type_args(args)
+            joined = ",".join(type_name(a) for a in args)
+        except Exception as e:   # noqa
+            real = joined = f"<{type(e).__name__}>"
+        terms = [c17_render.to_rty(a) for a in args]
+        out.append([f"{origin.__module__}.{origin.__qualname__}", terms if all(x is not None for x in terms) else None, real,
+                    [id(a) for a in args], [repr(a)[:80] for a in args], joined])
+    for a in args:
+        if a is not Ellipsis and not isinstance(a, (str, int, bytes, bool, float)) and a is not None:
+            out += spec_key_cases(a, classes, depth + 1)
+    return out
 
 
 def check_factory_identity(sr: SchemaRun, inst, back):
